@@ -28,14 +28,18 @@ LEVEL = 'proof'
 META = {
     'text': 'Coq theorems (Props/C20.v), exhaustive over every suite id the library knows x versions (3,0)..(3,4), about '
             'tables regenerated from tlslite on every run (all CipherSuite.*Suites lists; the values of '
-            '_getCipherSettings, _getMacSettings, canonicalCipherName/MacName, the PRF calc_key applies, the TLS 1.3 '
-            'key-schedule hash, filterForVersion and the get*Suites filters as the handshake combines them): key '
+            '_getCipherSettings, _getMacSettings, canonicalCipherName/MacName, the PRF calc_key applies for every label, '
+            'the exporter, the TLS 1.3 key-schedule hash, the TLS 1.3 KeyUpdate derivation in all four role wrappers, '
+            'filterForVersion and the get*Suites filters as the handshake combines them): key '
             'length, IV, cipher, MAC/tag, PRF, key-exchange class, version range and accessor names equal the meaning '
             'parsed from an independently written IANA registry, membership in each *Suites list equals its stated '
             'meaning, and the cipher/MAC/key-exchange/version lists partition the negotiable suites (all full; the MAC '
-            'statements were refuted at 0x00A3 until that was fixed in /repo). Every negotiable suite x version is also handshaken '
-            'live (two configurations) and the wire/record-layer observations are compared with the parsed meaning '
-            'inside Coq; every non-negotiable pair is offered live and must fail.',
+            'statements were refuted at 0x00A3 until that was fixed in /repo). Every suite with a registered meaning x version is '
+            'offered live (two configurations, plus clients restricted by each single settings word): every ServerHello on '
+            'the wire is judged, completed handshakes are compared with the parsed meaning inside Coq (and by a Python twin) '
+            'including, for TLS 1.3, a KeyUpdate each way checked against an independent hashlib/hmac HKDF chain and '
+            'wire-level decryption, post-handshake authentication, PSK resumption and the exporter; non-negotiable pairs '
+            'must fail. The live stage runs even when the translator refuses or the proof breaks.',
     'note': 'Trusted: Coq kernel + vm_compute; Spec/Iana.v (my transcription of the registry and naming conventions; '
             'cross-checked against CipherSuite.ietfNames and a Python twin); translator/units_suites.py (calls the real '
             'functions; the candidate-list composition and the key-exchange dispatch of tlsconnection.py are read from its ast '
@@ -118,6 +122,7 @@ def py_oracle(d):
         if not iana.defined_in(m, v):
             bad('undefined-version:0x%04x@3.%d' % (sid, vi), sid, vi,
                 'negotiable in a version that does not define it (defined for %s..%s)' % (m['minv'], m['maxv']))
+            continue        # what the suite would mean in a version that does not define it is not a question
         cs = r['cipher_settings']
         want = (m['keylen'], FACTORY[m['cipher']])
         if cs is None or (cs[0], cs[2]) != want or (not m['draft'] and cs[1] != m['fixed_iv']):
@@ -138,6 +143,30 @@ def py_oracle(d):
             if t != want13 or r['prf_params'] != (iana.prf_at(m, v), iana.HASHLEN[iana.prf_at(m, v).upper()]):
                 bad('tls13-keys:0x%04x' % sid, sid, vi, 'TLS 1.3 pending state %r / _getPRFParams %r, the name denotes %r'
                     % (t, r['prf_params'], want13), fn='calcTLS1_3PendingState')
+        want_h = iana.prf_at(m, v)
+        if vi <= 3:
+            for li, lb in enumerate(('key expansion', 'master secret', 'extended master secret', 'client finished', 'server finished')):
+                if vi == 0 and li == 2:
+                    continue
+                if r['labels'][vi][li] != want_h:
+                    bad('prf:%s:0x%04x@3.%d' % (lb.replace(' ', '-'), sid, vi), sid, vi,
+                        'calc_key(label=%r) applies %r, the name denotes %r' % (lb, r['labels'][vi][li], want_h), fn='calc_key')
+        if vi >= 1 and r['exporter'][vi - 1] != want_h:
+            bad('exporter:0x%04x@3.%d' % (sid, vi), sid, vi, 'keyingMaterialExporter uses %r, the name denotes %r'
+                % (r['exporter'][vi - 1], want_h), fn='keyingMaterialExporter')
+        if vi == 3:
+            for fn_, k in r['deprecated']:
+                if k != want_h:
+                    bad('prf:%s:0x%04x' % (fn_, sid), sid, vi, 'mathtls.%s uses %r, the name denotes %r' % (fn_, k, want_h), fn=fn_)
+        if vi == 4:
+            ku = r['keyupdate']
+            hl = iana.HASHLEN[want_h.upper()]
+            encname = 'chacha20-poly1305' if m['cipher'] == 'CHACHA20' else iana.lib_cipher_name(m)
+            wantku = ((want_h, hl, want_h, m['keylen'], want_h, 12, encname, m['tag']), [want_h] * 4)
+            if ku is None or (tuple(ku[0]), list(ku[1])) != wantku:
+                bad('keyupdate:0x%04x' % sid, sid, vi,
+                    'RecordLayer._calcTLS1_3KeyUpdate / calcTLS1_3KeyUpdate_sender/_reciever derive (secret hash, len, key hash, '
+                    'len, iv hash, len, cipher, tag), roles = %r; the name denotes %r' % (ku, wantku), fn='_calcTLS1_3KeyUpdate')
         if r['canon_cipher'] != iana.lib_cipher_name(m):
             bad('cipher-name:0x%04x' % sid, sid, vi, 'canonicalCipherName/getCipherName() = %r, the name denotes %r'
                 % (r['canon_cipher'], iana.lib_cipher_name(m)), fn='canonicalCipherName')
@@ -190,17 +219,115 @@ def obs_lit(r):
     w = r['wire']
     return ('{| o_sid := %s; o_ver := %s; o_sh_suite := %s; o_sh_ver := %s; o_wire_cert := %s; o_wire_kx := %s; '
             'o_ske_signed := %s; o_sigalg := %s; o_cli := %s; o_srv := %s; o_fact := %s; o_prfs := %s; o_hkdf := %s; '
-            'o_n := %s; o_c2s := %s; o_s2c := %s |}' % (
+            'o_n := %s; o_c2s := %s; o_s2c := %s; o_exp_same := %s; o_exp_kind := %s; o_post := %s |}' % (
                 zlit(r['sid']), zlit(r['ver']), zlit(w['sh_suite']), zlit(w['sh_ver']), ostr(w['wire_cert']),
                 vlib.strlit(w['wire_kx']), boollit(w['ske_signed']), vlib.strlit(w['sigalg']),
                 side_lit(r['cli']), side_lit(r['srv']),
                 listlit(r['fact'], lambda f: '(%s, %s, %s)' % (vlib.strlit(f[0]), zlit(f[1]), zlit(f[2]))),
                 listlit(r['prfs'], vlib.strlit), listlit(r['hkdf'], vlib.strlit),
-                zlit(r['n']), listlit(r['c2s'], zlit), listlit(r['s2c'], zlit)))
+                zlit(r['n']), listlit(r['c2s'], zlit), listlit(r['s2c'], zlit),
+                boollit((r.get('exporter') or {}).get('same', False)), vlib.strlit((r.get('exporter') or {}).get('kind', '')),
+                optlit(r.get('post'), post_lit)))
+
+
+def post_ok_flags(p):
+    rs = p.get('resume') or {}
+    agree = bool(p.get('agree0') and p.get('agree_client') and p.get('agree_server') and p.get('flows') and p.get('wire_open'))
+    resume = bool(rs.get('ok') and rs.get('psk') and rs.get('flows') and rs.get('suite') == p.get('_sid'))
+    return agree, bool(p.get('pha')), resume
+
+
+def post_lit(p):
+    agree, pha, resume = post_ok_flags(p)
+    return '{| p_agree := %s; p_steps := %s; p_lens := %s; p_pha := %s; p_resume := %s |}' % (
+        boollit(agree), listlit(p.get('steps', []), vlib.strlit), listlit(p.get('lens', []), zlit), boollit(pha), boollit(resume))
+
+
+# ------------------------------------------------------------------------------------------
+# Python twin of Model/C20_Live.v (used when Coq cannot evaluate, and cross-checked against it otherwise)
+PRF_FN = {'ssl3': 'PRF_SSL', 'md5sha1': 'PRF', 'sha256': 'PRF_1_2', 'sha384': 'PRF_1_2_SHA384'}
+
+
+def sizes_ok(m, v, etm, n, lens):
+    k, total = len(lens), sum(lens)
+    if v == 4:
+        eiv = 0
+    elif m['kind'] == 'stream':
+        eiv = 0
+    elif m['kind'] == 'cbc':
+        eiv = m['block'] if v >= 2 else 0
+    else:
+        eiv = 0 if m['cipher'] == 'CHACHA20' else 8
+    if m['kind'] == 'stream':
+        return total == n + k * m['maclen']
+    if m['kind'] == 'aead':
+        return total == n + k * (eiv + m['tag'] + (1 if v == 4 else 0))
+    bs, fixed = m['block'], eiv + m['maclen']
+    return all((l - eiv - (m['maclen'] if etm else 0)) % bs == 0 for l in lens) and \
+        n + k * (fixed + 1) <= total <= n + k * (fixed + bs)
+
+
+def py_live(r):
+    """names of the checks of Model/C20_Live.v that fail on observation r"""
+    m = iana.meaning(r['sid'])
+    if m is None:
+        return ['no-meaning']
+    v, w, bad = r['ver'], r['wire'], []
+    cert = {'RSA': 'rsa', 'DSS': 'dsa', 'ECDSA': 'ecdsa'}.get(m['auth'])
+    enc = None if m['cipher'] == 'NULL' else ('chacha20-poly1305' if m['cipher'] == 'CHACHA20' else iana.lib_cipher_name(m))
+    if not (w['sh_suite'] == r['sid'] and w['sh_ver'] == v and all(r[s]['suite'] == r['sid'] and r[s]['ver'] == v for s in ('cli', 'srv'))):
+        bad.append('chk_ids')
+    if not iana.defined_in(m, (3, w['sh_ver'])):
+        bad.append('chk_live_version')
+    kxw = {'RSA': 'rsa', 'DHE': 'dhe', 'ECDHE': 'ecdhe', 'SRP': 'srp', 'TLS13': 'tls13'}.get(m['kx'], 'static')
+    signed = m['kx'] not in ('RSA', 'TLS13') and m['auth'] not in ('anon', 'SRP')
+    if not (w['wire_kx'] == kxw and (v == 4 or (w['ske_signed'] == signed and w['wire_cert'] == cert
+                                                 and r['cli']['srv_cert'] == cert and w['sigalg'] in ('', cert)))):
+        bad.append('chk_kx')
+    okc = True
+    for sd in ('cli', 'srv'):
+        x = r[sd]
+        okc = okc and x['enc_aead'] == (m['kind'] == 'aead') and x['enc_tag'] == m['tag'] and x['conn_cipher'] == enc
+        if m['kind'] == 'aead':
+            okc = okc and (m['draft'] or x['nonce'] == iana.fixed_iv_at(m, (3, v)))
+        else:
+            okc = okc and x['nonce'] == 0
+    fact = [tuple(f) for f in r['fact']]
+    if m['cipher'] == 'NULL':
+        okc = okc and fact == []
+    else:
+        okc = okc and fact == [(FACTORY[m['cipher']], m['keylen'], -1 if m['kind'] == 'aead' else m['fixed_iv'])]
+    if not okc:
+        bad.append('chk_cipher')
+    if not all(r[sd]['mac_ds'] == m['maclen'] for sd in ('cli', 'srv')):
+        bad.append('chk_mac')
+    h = iana.prf_at(m, (3, v))
+    if not ((r['prfs'] == [] and r['hkdf'] == [h]) if v == 4 else (r['prfs'] == [PRF_FN[h]] and r['hkdf'] == [])):
+        bad.append('chk_prf')
+    if not all(r[sd]['sess_cipher'] == iana.lib_cipher_name(m) for sd in ('cli', 'srv')):
+        bad.append('chk_names_cipher')
+    if not all(iana.mac_name_agrees(m, r[sd]['sess_mac']) for sd in ('cli', 'srv')):
+        bad.append('chk_names_mac')
+    if not (r['c2s'] and r['s2c'] and sizes_ok(m, v, r['cli']['etm'], r['n'], r['c2s'])
+            and sizes_ok(m, v, r['srv']['etm'], r['n'], r['s2c'])):
+        bad.append('chk_sizes')
+    if v >= 1:
+        e = r.get('exporter') or {}
+        if not (e.get('same') and e.get('kind') == h):
+            bad.append('chk_exporter')
+    if v == 4:
+        p = r.get('post')
+        if p is None:
+            bad.append('chk_post')
+        else:
+            agree, pha, resume = post_ok_flags(p)
+            if not (agree and pha and resume and p.get('steps') == [h] * 4 and p.get('lens') == [iana.HASHLEN[h.upper()]] * 6):
+                bad.append('chk_post')
+    return bad
 
 
 LIVE_CHECKS = ['chk_ids', 'chk_live_version', 'chk_kx', 'chk_cipher', 'chk_mac', 'chk_prf', 'chk_names_cipher',
-               'chk_names_mac', 'chk_sizes']
+               'chk_names_mac', 'chk_sizes', 'chk_exporter', 'chk_post']
 
 
 def meaning_codes(m):
@@ -211,38 +338,46 @@ def meaning_codes(m):
 
 def brief(r):
     keep = {k: r.get(k) for k in ('sid', 'ver', 'cfg', 'ok', 'outcome', 'wire', 'cli', 'srv', 'fact', 'prfs', 'hkdf',
-                                  'c2s', 's2c', 'n', 'error', 'variant')}
+                                  'c2s', 's2c', 'n', 'error', 'variant', 'exporter', 'post', 'words', 'cred', 'asked')}
     return keep
 
 
+WORD_FIELDS = (('cipherNames', ['chacha20-poly1305', 'aes256gcm', 'aes128gcm', 'aes256ccm', 'aes128ccm', 'aes256',
+                                 'aes128', '3des', 'chacha20-poly1305_draft00', 'aes128ccm_8', 'aes256ccm_8', 'rc4', 'null']),
+               ('macNames', ['sha', 'sha256', 'sha384', 'aead', 'md5']),
+               ('keyExchangeNames', ['ecdhe_ecdsa', 'rsa', 'dhe_rsa', 'ecdhe_rsa', 'srp_sha', 'srp_sha_rsa', 'ecdh_anon',
+                                     'dh_anon', 'dhe_dsa']))
+
+
 def live_cases(ctx, d, quick):
-    neg = sorted(negotiable_pairs(d))
-    pos, negc = [], []
-    for (sid, vi) in neg:
-        for cfg in c20_live.CFGS:
-            pos.append({'sid': sid, 'ver': (3, vi), 'cfg': cfg, 'seed': ctx.rng.randrange(1 << 30)})
-    if not quick:       # more dimensions: other TLS 1.3 credentials, MAC-then-encrypt, payload sizes (1 byte .. 2 records)
-        for (sid, vi) in neg:
-            if vi == 4:
-                for cred in ('ecdsa', 'ed25519', 'rsapss'):
-                    for cfg in c20_live.CFGS:
-                        pos.append({'sid': sid, 'ver': (3, vi), 'cfg': cfg, 'cred13': cred, 'variant': 'cred13=' + cred,
-                                    'seed': ctx.rng.randrange(1 << 30)})
-            pos.append({'sid': sid, 'ver': (3, vi), 'cfg': 'client-pinned', 'variant': 'etm-off,n=1', 'etm': False, 'n': 1,
-                        'seed': ctx.rng.randrange(1 << 30)})
-            pos.append({'sid': sid, 'ver': (3, vi), 'cfg': 'server-pinned', 'variant': 'etm-off,n=1000', 'etm': False,
-                        'n': 1000, 'seed': ctx.rng.randrange(1 << 30)})
-            pos.append({'sid': sid, 'ver': (3, vi), 'cfg': 'client-pinned', 'variant': 'n=20000', 'n': 20000,
-                        'seed': ctx.rng.randrange(1 << 30)})
-    negset = set(neg)
-    for sid in d['all']:
-        if iana.meaning(sid) is None:
-            continue
+    """All (suite with a registered meaning) x version x configuration, from the registry alone; the generated
+    tables (when there are any) only say which of them are expected to complete."""
+    ids = sorted(s for s in (set(iana.REGISTRY) | set(iana.UNREGISTERED) | set(d['all'] if d else ())) if iana.meaning(s))
+    negset = negotiable_pairs(d) if d else None
+    cases = []
+    for sid in ids:
         for vi in range(5):
-            if (sid, vi) not in negset:
-                for cfg in c20_live.CFGS:
-                    negc.append({'sid': sid, 'ver': (3, vi), 'cfg': cfg, 'seed': ctx.rng.randrange(1 << 30)})
-    return pos, negc
+            exp = None if negset is None else ((sid, vi) in negset)
+            for cfg in c20_live.CFGS:
+                cases.append({'sid': sid, 'ver': (3, vi), 'cfg': cfg, 'expect': exp, 'seed': ctx.rng.randrange(1 << 30)})
+            if not quick and exp:   # more dimensions: other TLS 1.3 credentials, MAC-then-encrypt, payloads 1 byte .. 2 records
+                if vi == 4:
+                    for cred in ('ecdsa', 'ed25519', 'rsapss'):
+                        for cfg in c20_live.CFGS:
+                            cases.append({'sid': sid, 'ver': (3, vi), 'cfg': cfg, 'cred13': cred, 'variant': 'cred13=' + cred,
+                                          'expect': exp, 'seed': ctx.rng.randrange(1 << 30)})
+                cases.append({'sid': sid, 'ver': (3, vi), 'cfg': 'client-pinned', 'variant': 'etm-off,n=1', 'etm': False,
+                              'n': 1, 'expect': exp, 'seed': ctx.rng.randrange(1 << 30)})
+                cases.append({'sid': sid, 'ver': (3, vi), 'cfg': 'server-pinned', 'variant': 'etm-off,n=1000', 'etm': False,
+                              'n': 1000, 'expect': exp, 'seed': ctx.rng.randrange(1 << 30)})
+                cases.append({'sid': sid, 'ver': (3, vi), 'cfg': 'client-pinned', 'variant': 'n=20000', 'n': 20000,
+                              'expect': exp, 'seed': ctx.rng.randrange(1 << 30)})
+    # clients restricted by one settings word, every version allowed on both sides, nothing cut from the offer
+    for field, words in WORD_FIELDS:
+        for w in words:
+            for cred in ('rsa', 'ecdsa', 'dsa', 'anon', 'srp'):
+                cases.append({'words': (field, w), 'cred': cred, 'expect': None, 'seed': ctx.rng.randrange(1 << 30)})
+    return cases
 
 
 # ------------------------------------------------------------------------------------------
@@ -271,6 +406,8 @@ def run(ctx):
                         'SSLv2 is out of scope (no SSLv2 handshake in TLSConnection)']
     # ---- implementation values + direct oracle (needs no Coq) ----------------------------
     try:
+        if os.environ.get('C20_NO_TABLES'):     # validation aid: behave as if the translator had refused
+            raise RuntimeError('C20_NO_TABLES set')
         d = units_suites.collect()
     except Exception as e:  # noqa
         d = None
@@ -327,78 +464,120 @@ def run(ctx):
             tie_broken = 'twin evaluation failed: ' + e[:300]
         for i in badt[:3]:
             tie_broken = 'Spec/Iana.v and harness/c20_iana.py disagree on id 0x%04X' % ids[i]
-    if d is not None:
-        pos, negc = live_cases(ctx, d, quick)
-        with multiprocessing.Pool(vlib.NPROC) as pool:
-            rpos = pool.map(c20_live.run_case, pos, chunksize=4)
-            rneg = pool.map(c20_live.run_case, negc, chunksize=8)
-        ctx.log('live: %d positive, %d negative handshakes' % (len(rpos), len(rneg)))
-        good = []
-        for c, r in zip(pos, rpos):
-            r['variant'] = c.get('variant')
-            m = iana.meaning(r['sid'])
-            key = (m['kx'], m['auth'], m['cipher'], m['keylen'], m['mac'], r['ver'], r['cfg'], c.get('variant'))
-            ctx.count('live-handshake(negotiable)', 1, [key], sample=brief(r) if len(good) % 97 == 5 else None)
-            crashed = [o for o in (r.get('outcome') or []) if o and o[0] in ('Other', 'Deadlock')]
-            if not r['ok'] and crashed:
+    # ---- live stage: independent of the generated tables (they only say what is expected to complete) ----
+    cases = live_cases(ctx, d, quick)
+    with multiprocessing.Pool(vlib.NPROC) as pool:
+        results = pool.map(c20_live.run_case, cases, chunksize=4)
+    ctx.log('live: %d handshakes (%d expected to complete, %d expected to fail, %d judged from the registry alone)'
+            % (len(results), sum(1 for c in cases if c['expect'] is True), sum(1 for c in cases if c['expect'] is False),
+               sum(1 for c in cases if c['expect'] is None)))
+    good = []
+    for c, r in zip(cases, results):
+        r['variant'] = c.get('variant')
+        r['asked'] = {'sid': c.get('sid'), 'ver': list(c['ver']) if c.get('ver') else None}
+        w = r.get('wire') or {}
+        # (a) whatever ServerHello the server put on the wire, completed handshake or not
+        if w.get('sh_suite', -1) >= 0:
+            m2 = iana.meaning(w['sh_suite'])
+            if m2 is None or not iana.defined_in(m2, (3, w['sh_ver'])):
+                found = ctx.violation('undefined-version:0x%04x@3.%d' % (w['sh_suite'], w['sh_ver']),
+                                      'the server answered [%s] with a ServerHello of version (3,%d) carrying 0x%04X %s, which that '
+                                      'version does not define%s' % (r['cfg'], w['sh_ver'], w['sh_suite'], iana.name_of(w['sh_suite']),
+                                                                     '' if r['ok'] else ' (the client then aborted: %s)' % (r.get('outcome') or ['?'])[0]),
+                                      {'kind': 'live', 'case': brief(r), 'how': './check C20 --replay <this file>'}) or found
+        m = iana.meaning(r['sid']) if r['sid'] >= 0 else None
+        stream = ('live(word-restricted client)' if c.get('words') else
+                  'live(expected to complete)' if c['expect'] else 'live(expected to fail)' if c['expect'] is False
+                  else 'live(judged from the registry)')
+        key = ((m['kx'], m['auth'], m['cipher'], m['keylen'], m['mac']) if m else ('none',)) + (r['ver'], r['cfg'], c.get('variant'), r['ok'])
+        ctx.count(stream, 1, [key], sample=brief(r) if (len(good) % 131 == 7 and r['ok']) else None)
+        crashed = [o for o in (r.get('outcome') or []) if o and o[0] in ('Other', 'Deadlock')]
+        if r.get('error') and not r.get('outcome'):
+            tie_broken = tie_broken or ('live case %s could not be run: %s' % (r['cfg'], r['error']))
+            continue
+        if not r['ok']:
+            if crashed and c['expect'] is not False:
                 # the endpoints' own filters admit the suite, then an endpoint dies outside the documented errors:
                 # no key exchange of the kind the name denotes can be performed for a suite the library selects
-                sel = (r.get('wire') or {}).get('sh_suite') == r['sid']
-                found = ctx.violation('negotiated-but-kx-fails:0x%04x' % r['sid'],
-                                      '0x%04X %s at (3,%d) [%s]: admitted by both endpoints\' filters%s, then the handshake dies with %s'
-                                      % (r['sid'], iana.name_of(r['sid']), r['ver'], r['cfg'],
-                                         ' and selected in the ServerHello' if sel else '', crashed[0][1:]),
-                                      {'kind': 'live', 'case': brief(r)}) or found
-                continue
-            if not r['ok'] or not r.get('app_ok') or r.get('forced_into_offer'):
-                # tables say negotiable, the endpoints do not complete it: model and implementation disagree
-                tie_broken = tie_broken or ('0x%04X at (3,%d) [%s] is negotiable by the generated tables but the live '
-                                            'handshake gives %s %s' % (r['sid'], r['ver'], r['cfg'], r.get('outcome'),
-                                                                       r.get('error', '')))
-                continue
-            good.append(r)
-        for c, r in zip(negc, rneg):
-            m = iana.meaning(r['sid'])
-            ctx.count('live-handshake(non-negotiable must fail)', 1, [(m['kx'], m['auth'], m['cipher'], m['mac'], r['ver'])])
-            if r['ok']:
-                if not iana.defined_in(m, (3, r['ver'])):
-                    found = ctx.violation('undefined-version:0x%04x@3.%d' % (r['sid'], r['ver']),
-                                          '0x%04X %s was negotiated live at (3,%d), which does not define it'
-                                          % (r['sid'], iana.name_of(r['sid']), r['ver']),
+                sel = w.get('sh_suite') == r['sid'] and r['sid'] >= 0
+                if c['expect'] or sel:
+                    found = ctx.violation('negotiated-but-kx-fails:0x%04x' % max(r['sid'], 0),
+                                          '0x%04X %s at (3,%d) [%s]: admitted by the endpoints\' filters%s, then the handshake dies with %s'
+                                          % (max(r['sid'], 0), iana.name_of(r['sid']), r['ver'], r['cfg'],
+                                             ' and selected in the ServerHello' if sel else '', crashed[0][1:]),
                                           {'kind': 'live', 'case': brief(r)}) or found
-                else:
-                    tie_broken = tie_broken or ('0x%04X at (3,%d) completes live but the generated tables say not negotiable'
-                                                % (r['sid'], r['ver']))
-        odd = sorted(set(r['sid'] for r in good if r['ver'] < 4 and iana.meaning(r['sid'])['auth'] in ('RSA', 'DSS', 'ECDSA')
-                         and r['srv']['srv_cert'] is None))
-        if odd:
-            ctx.notes.append('recorded, not raised (session state, not suite semantics): the SERVER-side session.serverCertChain '
-                             'is None although a certificate was sent and verified by the client, for '
-                             + ', '.join('0x%04X' % x for x in odd)
-                             + ' (tlsconnection.py "Create the session object" tests certAllSuites/ecdheEcdsaSuites, not dheDsaSuites)')
-        if res['model_ok'] and good:
-            lits = [obs_lit(r) for r in good]
-            bads, errs = vlib.coq_bad_indices('C20l', ['Spec.Iana', 'Model.C20_Live'], 'obs', LIVE_CHECKS, lits,
-                                              shard=max(8, (len(lits) + 15) // 16))
-            ctx.count('live-vs-parsed-name(vm_compute)', len(lits) * len(LIVE_CHECKS), [('cases', len(lits))])
-            for e in errs:
-                tie_broken = tie_broken or ('live case evaluation failed: ' + e[:300])
-            for chk, bad in zip(LIVE_CHECKS, bads):
-                for i in bad:
-                    r = good[i]
-                    key = (MAC_KEY % r['sid']) if chk == 'chk_names_mac' else 'live-%s:0x%04x' % (chk[4:], r['sid'])
-                    found = ctx.violation(key, 'live handshake 0x%04X %s at (3,%d) [%s]: %s disagrees with the IANA name (getMacName=%r, '
-                                  'getCipherName=%r, wire=%s, factory=%s, prf=%s)'
-                                  % (r['sid'], iana.name_of(r['sid']), r['ver'], r['cfg'], chk, r['cli']['sess_mac'],
-                                     r['cli']['sess_cipher'], r['wire'], r['fact'], r['prfs'] or r['hkdf']),
-                                  {'kind': 'live', 'check': chk, 'case': brief(r),
-                                   'how': './check C20 --replay <this file> reruns the handshake and prints the observations'}) or found
-        elif not res['model_ok']:
-            tie_broken = tie_broken or ('model does not compile: %s' % res['failing'])
-    ctx.cov['rule'] = ('exhaustive: every suite id x version the tables call negotiable is checked by the direct oracle and '
-                       'handshaken live in two configurations (client pinned to the version / server pinned), every other '
-                       'id x version with a registered meaning is offered live and must fail; distinct = (key exchange, '
-                       'authentication, cipher, key bytes, MAC, PRF, version[, configuration])')
+            elif c['expect']:
+                tie_broken = tie_broken or ('0x%04X at (3,%d) [%s] is negotiable by the generated tables but the live '
+                                            'handshake gives %s %s' % (r['sid'], r['ver'], r['cfg'], r.get('outcome'), r.get('error', '')))
+            continue
+        # (b) completed handshakes
+        if c['expect'] is False and iana.defined_in(m, (3, r['ver'])):
+            tie_broken = tie_broken or ('0x%04X at (3,%d) completes live but the generated tables say not negotiable' % (r['sid'], r['ver']))
+        if not r.get('app_ok') or r.get('forced_into_offer'):
+            tie_broken = tie_broken or ('0x%04X at (3,%d) [%s]: application data did not flow / suite was not in the client\'s own offer'
+                                        % (r['sid'], r['ver'], r['cfg']))
+            continue
+        if c.get('words') and m is not None:
+            field, word = c['words']
+            have = {'cipherNames': iana.lib_cipher_name(m), 'macNames': 'aead' if m['mac'] == 'AEAD' else iana.lib_mac_name(m),
+                    'keyExchangeNames': iana.lib_kx_name(m)}[field]
+            if have != word and not (field == 'keyExchangeNames' and m['kx'] == 'TLS13'):
+                key_ = (MAC_KEY % r['sid']) if field == 'macNames' else 'settings-word:%s=%s:0x%04x' % (field, word, r['sid'])
+                found = ctx.violation(key_, 'a client with settings.%s=[%r] negotiated 0x%04X %s (whose name denotes %r) at (3,%d)'
+                                      % (field, word, r['sid'], iana.name_of(r['sid']), have, r['ver']),
+                                      {'kind': 'live', 'case': brief(r)}) or found
+        good.append(r)
+    odd = sorted(set(r['sid'] for r in good if r['ver'] < 4 and iana.meaning(r['sid'])['auth'] in ('RSA', 'DSS', 'ECDSA')
+                     and r['srv']['srv_cert'] is None))
+    if odd:
+        ctx.notes.append('recorded, not raised (session state, not suite semantics): the SERVER-side session.serverCertChain '
+                         'is None although a certificate was sent and verified by the client, for '
+                         + ', '.join('0x%04X' % x for x in odd)
+                         + ' (tlsconnection.py "Create the session object" tests certAllSuites/ecdheEcdsaSuites, not dheDsaSuites)')
+    # judge the completed handshakes against the parsed name: Python twin always, Coq whenever Spec/Model compile
+    flagged = {}
+    for i, r in enumerate(good):
+        for chk in py_live(r):
+            flagged.setdefault((i, chk), set()).add('python')
+    live_model_ok = res['model_ok']
+    if not live_model_ok:       # Model/C20_Live.v needs only Spec/Iana.v, not the generated tables
+        live_model_ok = vlib.coq_make(['Spec/Iana.vo', 'Model/C20_Live.vo'])[0]
+    if live_model_ok and good:
+        lits = [obs_lit(r) for r in good]
+        bads, errs = vlib.coq_bad_indices('C20l', ['Spec.Iana', 'Model.C20_Live'], 'obs', LIVE_CHECKS, lits,
+                                          shard=max(8, (len(lits) + 15) // 16))
+        ctx.count('live-vs-parsed-name(vm_compute)', len(lits) * len(LIVE_CHECKS), [('cases', len(lits))])
+        for e in errs:
+            tie_broken = tie_broken or ('live case evaluation failed: ' + e[:300])
+        for chk, bad in zip(LIVE_CHECKS, bads):
+            for i in bad:
+                flagged.setdefault((i, chk), set()).add('coq')
+        if not errs:
+            for (i, chk), who in sorted(flagged.items()):
+                if len(who) == 1:
+                    tie_broken = tie_broken or ('Model/C20_Live.v and its Python twin disagree on %s for 0x%04X at (3,%d) (%s only)'
+                                                % (chk, good[i]['sid'], good[i]['ver'], list(who)[0]))
+    else:
+        ctx.notes.append('Coq could not evaluate the live observations (model does not build); judged by the Python twin only')
+    ctx.count('live-vs-parsed-name(python twin)', len(good) * len(LIVE_CHECKS), [('cases', len(good))])
+    for (i, chk), who in sorted(flagged.items()):
+        r = good[i]
+        key = (MAC_KEY % r['sid']) if chk == 'chk_names_mac' else 'live-%s:0x%04x' % (chk[4:], r['sid'])
+        found = ctx.violation(key, 'live handshake 0x%04X %s at (3,%d) [%s]: %s disagrees with the IANA name (getMacName=%r, '
+                              'getCipherName=%r, wire=%s, factory=%s, prf=%s, exporter=%s, post=%s)'
+                              % (r['sid'], iana.name_of(r['sid']), r['ver'], r['cfg'], chk, r['cli']['sess_mac'],
+                                 r['cli']['sess_cipher'], r['wire'], r['fact'], r['prfs'] or r['hkdf'], r.get('exporter'),
+                                 {k: v for k, v in (r.get('post') or {}).items() if k in ('steps', 'lens', 'wire_open', 'flows', 'pha', 'resume')}),
+                              {'kind': 'live', 'check': chk, 'case': brief(r),
+                               'how': './check C20 --replay <this file> reruns the handshake and prints the observations'}) or found
+    if not res['model_ok'] and tie_broken is None:
+        tie_broken = 'model does not compile: %s' % res['failing']
+    ctx.cov['rule'] = ('exhaustive: every suite id with a registered meaning x version is offered live in two configurations '
+                       '(client pinned to the version / server pinned); the pairs the tables call negotiable must complete and '
+                       'agree with the parsed name (incl. TLS 1.3 KeyUpdate both ways, PHA, PSK resumption, exporter), the others '
+                       'must fail; every ServerHello on the wire is judged, completed or not; plus clients restricted by each '
+                       'single settings word x 5 credential kinds; distinct = (key exchange, authentication, cipher, key bytes, '
+                       'MAC, version, configuration, variant, completed)')
     if tie_broken and not found:
         ctx.violation('tie-broken', tie_broken, {'correspondence': 'Gen/Suites.v / live handshakes vs tlslite', 'detail': tie_broken},
                       found_input=False)
@@ -411,12 +590,24 @@ def replay(ctx, path):
         r = json.load(f)
     if r.get('kind') == 'live':
         c = r['case']
-        out = c20_live.run_case({'sid': c['sid'], 'ver': (3, c['ver']), 'cfg': c['cfg'], 'seed': r.get('seed', 0)})
+        if c.get('words'):
+            out = c20_live.run_case({'words': tuple(c['words']), 'cred': c.get('cred', 'rsa'), 'seed': r.get('seed', 0)})
+        else:
+            a = c.get('asked') or {}
+            out = c20_live.run_case({'sid': a.get('sid') or c['sid'], 'ver': tuple(a.get('ver') or (3, c['ver'])), 'cfg': c['cfg'],
+                                     'seed': r.get('seed', 0)})
         print(json.dumps(brief(out), indent=1, default=str))
-        m = iana.meaning(c['sid'])
-        print('meaning of %s: %s' % (iana.name_of(c['sid']), m))
-        okm = out['ok'] and iana.mac_name_agrees(m, out['cli']['sess_mac']) and out['cli']['sess_cipher'] == iana.lib_cipher_name(m)
-        return 0 if okm else 1
+        w = out.get('wire') or {}
+        bad = []
+        if w.get('sh_suite', -1) >= 0:
+            m2 = iana.meaning(w['sh_suite'])
+            print('ServerHello: (3,%d) 0x%04X %s -> %s' % (w['sh_ver'], w['sh_suite'], iana.name_of(w['sh_suite']), m2))
+            if m2 is None or not iana.defined_in(m2, (3, w['sh_ver'])):
+                bad.append('undefined-version')
+        if out['ok']:
+            bad += py_live(out)
+        print('failing checks: %s' % bad)
+        return 1 if bad else 0
     d = units_suites.collect()
     viols, _ = py_oracle(d)
     hits = [v for v in viols if v[0] == r.get('key')]
